@@ -444,6 +444,34 @@ def run(ctx):
             if got != want:
                 bad.add(ci)
                 ctx.disagree("client-lockstep", {"case": lcases[ci], "request": lreqs[idx][:120]}, str(got), str(want))
+    # designed: prefetch everything, consume it, readv inside the buffered data, then read up to EOF
+    for size, first in ((100, 10), (70000, 40000)):
+        sess = L.ThreadedSession()
+        data = rng.randbytes(size)
+        desc = {"designed": "prefetch;read;readv-covered;read-to-eof", "size": size}
+        try:
+            sess.fs.files["/r"] = bytearray(data)
+
+            def prog(first=first, size=size):
+                fr = sess.client.open("/r", "rb")
+                fr.prefetch()
+                a = fr.read(first)
+                b = list(fr.readv([(first + 5, 20)]))
+                fr.seek(size - 10)
+                c = fr.read(50)
+                fr.close()
+                return a, b, c
+
+            r = sess.call(prog)
+            ctx.case(("mix-designed", size), True)
+            if r[0] == "hang":
+                ctx.fail("client-hangs", desc, "a call on a session whose server answers every request never returns")
+            elif r[0] == "exc":
+                ctx.fail("client-mix-raises:" + L.exc_kind(r[1]), desc, repr(r[1]))
+            elif r[1] != (data[:first], [data[first + 5:first + 25]], data[size - 10:]):
+                ctx.fail("client-mix-wrong-bytes:read", desc, "designed program returned wrong bytes")
+        finally:
+            sess.close()
     n_mix = 500 if ctx.thorough else 80
     for i in range(n_mix):
         desc, failure = client_mix_case(ctx, rng)
